@@ -319,6 +319,9 @@ def check_c01(tier, pid="C01"):
 # ================================================================================ C05 / C19 (cutoff at every poll)
 def check_cutoff(tier, pid):
     sc = SolveCheck(pid, tier)
+    if pid == "C05": sc.proofs("C05", ["C05_seq_anytime_sound", "C05_seq_lb_le_ub"])
+    if pid == "C19": sc.proofs("C19", ["C19_cutoff_monotone", "C19_cutoff_monotone_any_later_point", "C19_eventually_the_uninterrupted_run",
+                                       "C19_compile_prefix_determinism"])
     if not sc.build(): return sc.chk.finish()
     n = 25 * (1 if tier == "quick" else 10)
     insts = gen_instances(sc.rng, n, "plain")
@@ -386,7 +389,8 @@ def check_cutoff(tier, pid):
             "C19": "All consecutive cutoff indices of each run: lower bound non-decreasing, upper bound non-increasing in k, exact with both bounds at the optimum "
                    "after the last poll; Coq solver model compared at every k. Monotonicity theorem: open obligation (needs the determinism / prefix lemma)."}[pid]
     return sc.finish(RULE + "; cutoff firing at every poll index of the uninterrupted run", expl,
-                     ["%s theorem about Solver.maximize with cutoff" % pid])
+                     ["diagram contracts K1-K4 for the concrete Mdd.compile (MddSim)", "parallel part of C05: no theorem (scheduled runs only)"] if pid == "C05"
+                     else ["diagram contracts K1-K4 for the concrete Mdd.compile (MddSim)"])
 
 
 # ================================================================================ C14 (primal)
